@@ -360,11 +360,33 @@ func runC16(c *Ctx) {
 
 		var mu sync.Mutex
 		var recs []c16Rec
+		// the recovery of a foreground victim is part of that invocation: while it runs (it takes its time here), no
+		// foreground handler of a later event may have started
+		var fgRecovering, overtaken int64 // event number + 1 whose foreground victim is being recovered; overtaking event + 1
+		var isFgVictim func(n int) bool
 		recf := func(_ *client.Conn, l *client.Line) {
 			if v := recover(); v != nil {
+				n := -1
+				if l != nil && l.Cmd == "EVT" && len(l.Args) > 0 {
+					n, _ = strconv.Atoi(l.Args[0])
+				}
+				slow := n >= 0 && isFgVictim != nil && isFgVictim(n)
+				if slow {
+					atomic.StoreInt64(&fgRecovering, int64(n)+1)
+					if n%2 == 0 {
+						time.Sleep(150 * time.Microsecond)
+					} else {
+						for k := 0; k < 30; k++ {
+							runtime.Gosched()
+						}
+					}
+				}
 				mu.Lock()
 				recs = append(recs, c16Rec{v, l})
 				mu.Unlock()
+				if slow {
+					atomic.StoreInt64(&fgRecovering, 0)
+				}
 			}
 		}
 		// every other custom recovery function is installed through Config() only after Connect has returned
@@ -378,6 +400,16 @@ func runC16(c *Ctx) {
 		for h := 0; h < nFg+nBg; h++ {
 			h := h
 			f := func(_ *client.Conn, l *client.Line) { atomic.AddInt64(&counts[h], 1) }
+			if h < nFg {
+				f = func(_ *client.Conn, l *client.Line) {
+					if e := atomic.LoadInt64(&fgRecovering); e != 0 {
+						if n, _ := strconv.Atoi(l.Args[0]); int64(n) > e-1 {
+							atomic.CompareAndSwapInt64(&overtaken, 0, int64(n)+1)
+						}
+					}
+					atomic.AddInt64(&counts[h], 1)
+				}
+			}
 			if h < nFg {
 				s.Conn.HandleFunc("EVT", f)
 			} else {
@@ -424,6 +456,7 @@ func runC16(c *Ctx) {
 				}
 			}
 		}
+		isFgVictim = func(n int) bool { p, ok := plan[n]; return ok && p.kind == "fg" }
 		s.Conn.HandleFunc("EVT", victim("fg"))
 		s.Conn.HandleBG("EVT", victim("bg"))
 		release := make(chan struct{})
@@ -532,6 +565,10 @@ func runC16(c *Ctx) {
 					return false
 				}
 				want := len(thrownSeq) + builtinThrown
+				if e := atomic.LoadInt64(&overtaken); e != 0 {
+					fail("recovery-overtaken", fmt.Sprintf("a foreground handler of event %d started while the recovery function was still dealing with the panic of a foreground handler of an earlier event", e-1))
+					return false
+				}
 				if custom {
 					if !waitUntil(func() bool { mu.Lock(); defer mu.Unlock(); return len(recs) >= want-thrown["nil"] }) {
 						mu.Lock()
